@@ -12,10 +12,12 @@ IMPORTS = "From Coq Require Import String PrimFloat.\nFrom PV Require Import Lib
 SHARD = 40
 SERIAL = False
 LEVEL_TEXT = ("Coq theorems over executable models of (1) the HDF5 store with h5py_File_write_dict, the typed readers and the table-driven "
-              "to_hdf5/from_hdf5 of 12 classes: for every class without a dictionary field, every prior file content, group name and well-typed "
-              "object, a successful overwrite followed by a read returns exactly the attributes written, hence after any sequence of overwrites "
-              "the last object (UTF-8 round trip proved for all unicode scalar strings); refutations by computation for the pre-fix code and, for "
-              "the code as it stands, for nested dictionaries (genomic-model hyper-parameters); (2) a heap model of copy/deepcopy: copies observe "
+              "to_hdf5/from_hdf5 of 12 classes: for every persistable class (the genomic models with their dictionary of hyper-parameters "
+              "included), every well-formed prior file content, group name and well-typed object, a successful overwrite followed by a read "
+              "returns exactly the attributes written (dictionary members as a finite map, python numbers as numpy scalars), hence after any "
+              "sequence of overwrites the last object (UTF-8 round trip proved for all unicode scalar strings); refutations by computation "
+              "for the former code (None fields skipped; nested dictionaries never cleared; str hyper-parameters read as bytes) and, for the "
+              "code as it stands, for a hyper-parameter whose value is None (dropped); (2) a heap model of copy/deepcopy: copies observe "
               "the source's values, a deep copy lives in freshly allocated cells closed under reachability and no mutation of them is visible "
               "through the source; (3) VCF import (positionally exact; with grouping a stable sort + run-length metadata) and the data-frame "
               "codecs (Morgan genetic maps lossless; refutations for cM rounding, breeding-value location/scale, sorted variance-matrix labels, "
@@ -26,7 +28,7 @@ LEVEL_NOTE = ("trusted: Coq kernel + vm_compute, PrimFloat primitives (data-fram
               "create/delete/membership), pandas (frames are compared cell by cell; CSV text is not modelled: the frame pandas parses back is an "
               "input of the model), cyvcf2 (VCF text -> records), numpy copy semantics (ndarray.__copy__/__deepcopy__ duplicate the buffer). "
               "Theorems are about the Gallina models; the tie to the code is differential on generated inputs plus the regenerated field tables. "
-              "Not proved: a general round trip for classes with dictionary fields, general (all-size) round trips of the wide/long data-frame "
+              "Not proved: general (all-size) round trips of the wide/long data-frame "
               "codecs other than Morgan genetic maps, class-level (all attributes at once) copy equality.")
 TECHNIQUE = "Coq proof over executable store/codec/heap models; in-Coq vm_compute correspondence with the implementation; ast-generated field tables"
 RULE = ("case kinds from one PRNG: h5 (class, group name incl. nested/non-ASCII/absolute, 1-3 objects written to the same location with "
